@@ -224,6 +224,9 @@ func (s *Store) txnNode(tx WriteTxn, idx uint64, op *structs.TxnNodeOp) (structs
 			err = fmt.Errorf("failed to set node %q, index is stale", op.Node.Node)
 			break
 		}
+		if err != nil {
+			break
+		}
 		entry, err = getNode()
 
 	case api.NodeDelete:
@@ -346,6 +349,9 @@ func (s *Store) txnCheck(tx WriteTxn, idx uint64, op *structs.TxnCheckOp) (struc
 		ok, err = s.ensureCheckCASTxn(tx, idx, entry)
 		if !ok && err == nil {
 			err = fmt.Errorf("failed to set check %q on node %q, index is stale", entry.CheckID, entry.Node)
+			break
+		}
+		if err != nil {
 			break
 		}
 		_, entry, err = getNodeCheckTxn(tx, op.Check.Node, op.Check.CheckID, &op.Check.EnterpriseMeta, op.Check.PeerName)
